@@ -32,7 +32,8 @@ GMul(x, y) == IF IsZero(x[2]) /\ IsZero(y[2]) THEN <<RMul(x[1], y[1]), Zero>>
 GConj(x) == <<x[1], Neg(x[2])>>
 GAbs2(x) == RAdd(RMul(x[1], x[1]), RMul(x[2], x[2]))
 GIsZero(x) == IsZero(x[1]) /\ IsZero(x[2])
-GInv(x) == LET n == Inv(GAbs2(x)) IN <<RMul(x[1], n), RMul(Neg(x[2]), n)>>   \* x # 0
+GInv(x) == IF IsZero(x[2]) THEN <<Inv(x[1]), Zero>>                               \* x # 0 (real: no squaring)
+           ELSE LET n == Inv(GAbs2(x)) IN <<RMul(x[1], n), RMul(Neg(x[2]), n)>>
 GDiv(x, y) == GMul(x, GInv(y))                                                 \* y # 0
 GIsReal(x) == IsZero(x[2])
 GIsInteger(x) == GIsReal(x) /\ x[1][2] = 1          \* the value is a (real) integer, whatever type carries it
@@ -289,6 +290,20 @@ LawPow(x, y, neg) ==
         SameOutcome(o, PowOp(x, y, ~neg))
   /\ (~IsScalar(x) /\ ~IsSquare(x)) => IsErr(o)
   /\ (~IsScalar(x) /\ IsScalar(y) /\ ~GIsInteger(y.e[1])) => IsErr(o)
+(* scale invariance: for a scalar s # 0, s*A is singular exactly when A is (a determinant scales like s^n, so no
+   absolute threshold on it can decide singularity), the power is accepted or refused together with that of A, and
+   (s*A)^k = s^k * A^k;  an accepted negative power is a two-sided inverse of the positive one *)
+LawScaleInvariance(a, s, y, neg) ==
+  LET x == Scale(s, a)
+      o == PowOp(x, y, neg)
+      b == PowOp(a, y, neg)
+      k == GIntValue(y.e[1])
+      sk == IF k >= 0 THEN GIPow(s, k) ELSE GInv(GIPow(s, -k))
+  IN /\ IsSingular(x) <=> IsSingular(a)
+     /\ o.k = b.k
+     /\ IsVal(o) => o.v = Scale(sk, b.v)
+     /\ (IsVal(o) /\ k < 0) => MatMul(o.v, MatPow(x, -k)) = Identity(a.sh[1])
+     /\ (k < 0 /\ neg) => (IsErr(o) <=> IsSingular(a))
 \* determinants multiply
 LawDetMul(x, y) == (IsSquare(x) /\ IsSquare(y) /\ x.sh = y.sh /\ x.sh[1] > 1) =>
                      Det(MatMul(x, y)) = GMul(Det(x), Det(y))
